@@ -310,6 +310,43 @@ func NAME(a int, b int) (res int) {
 	return res
 }
 `))
+	// long string literals whose multi-byte runes straddle every byte offset class
+	euro := strings.Repeat("€", 100+r.Intn(30))
+	big := strings.Repeat("é€", 900+r.Intn(50))
+	n = next()
+	out = append(out, tmpl(n, SigIS, true, []string{"long-utf8-literals", "call-std"}, nil, `func NAME(a int, s string) (res int) {
+	res += strings.Count("`+euro+`", s)
+	res += strings.Count("x`+euro+`", s)
+	res += strings.Count("xy`+euro+`", s)
+	res += strings.Index("`+big+`", s)
+	res += strings.Index("z`+big+`", s) * a
+	return res + strings.Count("plain ascii literal", s)
+}
+`))
+
+	// named map / channel types: len() of them is as volatile as of the unnamed ones
+	n = next()
+	out = append(out, tmpl(n, SigMI, true, []string{"map-ops", "named-map", "hoist-unsafe"}, nil, `func NAME(m map[string]int, n int) (res int) {
+	s := IntSet(m)
+	for i := 0; i < len(s); i++ {
+		tick()
+		delete(s, strconv.Itoa(i))
+		if i > n+`+c("2", "3")+` {
+			break
+		}
+		res++
+	}
+	q := make(Queue, 8)
+	for i := 0; i < n&7; i++ {
+		q <- i
+	}
+	for len(q) > `+c("1", "2")+` {
+		tick()
+		res += <-q
+	}
+	return res
+}
+`))
 	return out
 }
 
@@ -448,6 +485,27 @@ func NAME(a int, b int) (res int) {
 `
 	}
 	out = append(out, mk("hoist-unsafe/len-of-mutated-map", SigMI, []string{"map-ops", "hoist-unsafe"}, hoist(true), hoist(false)))
+
+	hoistNamed := func(inside bool) string {
+		cond, pre := "i < len(s)", ""
+		if !inside {
+			cond, pre = "i < size", "\tsize := len(s)\n"
+		}
+		return `func NAME(m map[string]int, n int) (res int) {
+	s := IntSet(m)
+` + pre + `	for i := 0; ` + cond + `; i++ {
+		tick()
+		delete(s, strconv.Itoa(i))
+		if i > n+5 {
+			break
+		}
+		res++
+	}
+	return res
+}
+`
+	}
+	out = append(out, mk("hoist-unsafe/len-of-mutated-named-map", SigMI, []string{"map-ops", "named-map", "hoist-unsafe"}, hoistNamed(true), hoistNamed(false)))
 
 	fl := func(op, swap string) string {
 		x, y := "1", "2"
